@@ -133,9 +133,9 @@ CHECKS["C04"] = {
     "min_nontrivial_frac": 0.1,
 }
 CHECKS["C05"] = {
-    "jobs": [job("h_hist-" + d, 1500, 2, 30000, 4, fuzz_secs=300, fuzz_procs=2, env={"VERIF_TAPE_SCALE": "12"}) for d in HIST_Q] +
+    "jobs": [job("h_hist-" + d, 6000, 2, 40000, 4, fuzz_secs=300, fuzz_procs=2, env={"VERIF_TAPE_SCALE": "12"}) for d in HIST_Q] +
             [job("h_fwd-" + d, 500, 1, 8000, 2) for d in FWD_Q],
-    "rule": "(a) every forward analysis of the C01 programs runs under a deterministic budget of 5*10^6 fixpoint/transfer events (ordinary runs: "
+    "rule": "(a) every forward analysis of the C01 programs runs under a deterministic budget of 4*10^5 fixpoint/transfer events (ordinary runs: "
             "10-10^3); (b) widening chains x_{i+1} = x_i widen (x_i join?) f(x_i) for a decoded loop body f, guard, optional thresholds and "
             "interleaved normalising queries: both arguments' witnesses must be members of each result and the number of strict increases (by the "
             "domain's own <=) must stay below 8((n+1)^2 (T+3)+4); plus widening/narrowing steps inside histories; non-trivial = (a) a program with a "
@@ -158,7 +158,7 @@ CHECKS["C16"] = {
 
 EXACT_V = ["itv", "sdbm", "dbm", "soct", "lift"]
 CHECKS["C12"] = {
-    "jobs": [job("h_exact-" + v, 6000, 3, 20000, 3, fuzz_secs=0) for v in EXACT_V],
+    "jobs": [job("h_exact-" + v, 15000, 3, 20000, 3, fuzz_secs=0) for v in EXACT_V],
     "rule": "part A (model based): histories of 1-16 steps over 4 abstract values and <=4 variables inside the box [-B,B]^n (B<=4, optionally shifted by "
             "per-variable offsets up to 2^40 to exercise large constants): assume of 1-3 constraints of the domain's own language (+-x<=k; x-y<=k for "
             "zones; +-x+-y<=k for octagons; several syntactic forms, == included), join, meet, forget/project, copy, normalize/minimize, for "
@@ -179,7 +179,7 @@ CHECKS["C12"] = {
 
 ARR_Q = ["aa_int", "aa_sdbm", "aa_bool_int", "as_disint", "as_sdbm", "as_bool_int"]
 CHECKS["C14"] = {
-    "jobs": [job("h_fwd-" + d, 1500, 2, 12000, 4, fuzz_secs=300, fuzz_procs=2) for d in ARR_Q],
+    "jobs": [job("h_fwd-" + d, 2500, 2, 15000, 4, fuzz_secs=300, fuzz_procs=2) for d in ARR_Q],
     "rule": "the C01 program generator with array statements weighted up (array_init of every array in the entry block most of the time, array_init, "
             "weak stores at constant / aligned symbolic (es*v) / arbitrary symbolic indices, strong stores only on single-cell arrays, store_range, "
             "array_assign, loads; element size = byte width of the scalars, 4 or 8) over array_adaptive<interval|split_dbm|flat-bool+interval> and "
@@ -275,7 +275,7 @@ CHECKS["C02"]["rule"] += ("; the same comparison for the checker run on intra_fo
                           "(an assertion is claimed safe only if its verdict list is non-empty and every entry is safe/unreachable) and for inter_checker on the bottom-up analyzer")
 CHECKS["C02"]["assumptions"] = PROG_ASSUME + CALL_ASSUME
 CHECKS["C05"]["jobs"] += [job("h_bwd-" + d, 500, 1, 8000, 2) for d in ["interval", "sdbm"]] + [job("h_inter-" + d, 500, 1, 8000, 2) for d in ["interval", "bool_int", "bu_sdbm_interval"]]
-CHECKS["C05"]["rule"] += ("; the same deterministic budget (5*10^6 / 2*10^7 events) around the backward, forward+backward, top-down (incl. direct and mutual recursion, precise and "
+CHECKS["C05"]["rule"] += ("; the same deterministic budget (4*10^5 / 1.5*10^6 events) around the backward, forward+backward, top-down (incl. direct and mutual recursion, precise and "
                           "imprecise) and bottom-up analyses")
 CHECKS["C05"]["assumptions"] = PROG_ASSUME + CALL_ASSUME
 
